@@ -941,6 +941,11 @@ def run_with_example_fallback(case, ctx, **kw):
     if tr.build_error is not None and case.get('ex') == 'empty':
         ctx.count('build_exception_on_empty_example')
         ctx.note('build_exceptions_on_empty_example', '%s: %s' % (op_label(op), type(tr.build_error).__name__))
+        if op.get('fam') in ('red', 'gb', 'win', 'wgb', 'exp', 'roll', 'cum', 'ewm'):
+            # pandas computes every one of these aggregations on an empty frame; so must the collection that is built on
+            # an empty example (it evaluates the aggregation on the example eagerly)
+            ctx.violate('build-exception-on-empty-example@%s' % op_label(op),
+                        '%s cannot be built on an empty example: %r' % (op_label(op), tr.build_error), case)
         tr = run_pipeline(op, example_df(tab, 'rows'), batches, **kw)
     return df, batches, tr
 
@@ -989,6 +994,8 @@ def check_prefix(case, ctx):
             if err is not None:
                 ctx.count('exception_on_empty_prefix')
                 ctx.note('exceptions_on_empty_prefix', '%s: %s' % (label, type(err).__name__))
+                ctx.violate('exception-before-any-row@%s' % label, '%s -> batch %d (nothing but empty batches so far) raised %r; '
+                            'pandas computes this aggregation on an empty frame' % (head, k + 1, err), case)
             continue
         prefix = root_full.iloc[:cum]
         scope = 'the first %d batches' % (k + 1)
